@@ -1,7 +1,7 @@
 (* C02/Driver.v — entry points for the correspondence run (extracted to OCaml).
    run_encode : case tokens (a dump model as integers) -> dump bytes (extracted encode_dump)
    run_observe: dump bytes -> observables of decode_dump, in the shape the harness prints *)
-From RM Require Import C02.Model.
+From RM Require Import C02.Model C02.ModelR5.
 From RM Require Import C08.Model.
 Open Scope Z_scope.
 
@@ -232,34 +232,9 @@ Fixpoint insert_name (n : Z * list Z) (l : list (Z * list Z)) : list (Z * list Z
 Definition names_map (l : list (Z * list Z)) : list (Z * list Z) := fold_left (fun acc n => insert_name n acc) l [].
 
 
-(* ---- Linux key/value text (linux_list_iter): lines split on LF, split at the first separator,
-   both sides trimmed of ASCII whitespace and of one pair of surrounding double quotes *)
-Fixpoint split_on_aux (sep : Z) (l cur : list Z) : list (list Z) :=
-  match l with
-  | [] => [rev cur]
-  | c :: t => if c =? sep then rev cur :: split_on_aux sep t [] else split_on_aux sep t (c :: cur)
-  end.
-Definition split_on (sep : Z) (l : list Z) : list (list Z) := split_on_aux sep l [].
-Definition is_ws (c : Z) : bool := (c =? 32) || (c =? 9) || (c =? 10) || (c =? 12) || (c =? 13).
-Fixpoint trim_left (l : list Z) : list Z :=
-  match l with c :: t => if is_ws c then trim_left t else l | [] => [] end.
-Definition trim (l : list Z) : list Z := rev (trim_left (rev (trim_left l))).
-Definition strip_quotes (l : list Z) : list Z :=
-  let t := trim l in
-  match t with
-  | 34 :: r => match rev r with 34 :: r' => rev r' | _ => t end
-  | _ => t
-  end.
-Fixpoint split_once (sep : Z) (l pre : list Z) : option (list Z * list Z) :=
-  match l with
-  | [] => None
-  | c :: t => if c =? sep then Some (rev pre, t) else split_once sep t (c :: pre)
-  end.
+(* ---- Linux key/value text: linux_list_iter is ModelR5.kv_pairs (c02_kv_roundtrip) *)
 Definition kv_items (sep : Z) (b : list Z) : list (list Z) :=
-  flat_map (fun line => match split_once sep line [] with
-                        | Some (k, v) => [str (strip_quotes k) ++ str (strip_quotes v)]
-                        | None => []
-                        end) (split_on 10 b).
+  map (fun kv => str (fst kv) ++ str (snd kv)) (kv_pairs sep b).
 Fixpoint until_zero (l : list Z) : list Z :=
   match l with [] => [] | c :: t => if c =? 0 then [] else c :: until_zero t end.
 (* utf16_to_string: units up to the first NUL, None when they are not valid UTF-16 *)
@@ -279,6 +254,17 @@ Definition dir_obs (all : list Z) (d : list (Z * (Z * Z))) : list (list Z) :=
                 end) (served_dir d).
 Definition unk_obs (d : list (Z * (Z * Z))) : list (list Z) :=
   map (fun p => match p with (ty, (_, (size, rva))) => [ty; size; rva; stream_vendor ty] end) (unknown_streams d).
+(* unimplemented_streams(): type, location, vendor (through the REGENERATED stream_vendor) *)
+Definition unimp_obs (d : list (Z * (Z * Z))) : list (list Z) :=
+  map (fun p => match p with (ty, (_, (size, rva))) => [ty; size; rva; stream_vendor_rd ty] end) (unimplemented_streams d).
+(* one Mac crash info record: number of fixed u64 fields, the fields, number of strings, the strings; then what the
+   accessors version() / thread() / dialog_mode() / abort_cause() give (None for an absent or zero field: -1) and the
+   length of what each of the five string accessors gives (-1 for an absent or empty string) *)
+Definition mcrec_obs (r : mcrec) : list Z :=
+  let acc := fun k => match nth_error (cr_ints r) k with Some x => if x =? 0 then -1 else x | None => -1 end in
+  let sacc := fun k => match nth_error (cr_strings r) k with Some s => if zlen s =? 0 then -1 else zlen s | None => -1 end in
+  [zlen (cr_ints r)] ++ cr_ints r ++ [zlen (cr_strings r)] ++ flat_map str (cr_strings r)
+  ++ [acc 1%nat; acc 2%nat; acc 3%nat; acc 4%nat] ++ map sacc [0%nat; 1%nat; 2%nat; 3%nat; 4%nat].
 Definition the_dir (bytes : list Z) : list (Z * (Z * Z)) :=
   match read_directory bytes with Some (_, d) => d | None => [] end.
 
@@ -396,5 +382,7 @@ Definition run_observe (bytes : list Z) : option (list (Z * list (list Z))) :=
              sec (get_stream dec_crashpad e bytes (the_dir bytes) ST_CrashpadInfoStream) crashpad_obs;
              (* the object-information chain of every handle: count, then (info_type, size_of_info) in chain order *)
              sec (get_stream dec_handle_chains e bytes (the_dir bytes) ST_HandleDataStream)
-                 (map (fun c => zlen c :: flat_map (fun p => [fst p; snd p]) c)) ]
+                 (map (fun c => zlen c :: flat_map (fun p => [fst p; snd p]) c));
+             (2, unimp_obs (the_dir bytes));
+             sec (get_stream dec_maccrash e bytes (the_dir bytes) ST_MozMacosCrashInfoStream) (map mcrec_obs) ]
   end.
